@@ -235,7 +235,13 @@ func c19(r *Run) {
 			r.Route()
 			before := s.VerifTableSnapshot()
 			c0 := counters()
-			r.Logf("inbound %s from %s blockedNow=%v", m, src, blockedNow)
+			switch ch.Pick([]int{6, 2, 1}, "in.args") {
+			case 1:
+				a = nil // no arguments dict at all
+			case 2:
+				a = benc.Dict{{K: "id", V: string(id[:])}}
+			}
+			r.Logf("inbound %s from %s blockedNow=%v args=%d", m, src, blockedNow, len(a))
 			r.Deliver(conn, src, Query(m, fmt.Sprintf("b%d", step), a))
 			ws := r.Drain()
 			if blockedNow {
